@@ -72,12 +72,17 @@ def work_cli(bins, tz, cases):
                     argv += ["--dirty"]
                 if t % 7 == 3:
                     argv += ["--epoch", "2"]
+                if t % 5 == 1 and dist is None and not dirty:
+                    argv += ["--clean"]          # "clean" is about distance and dirt; the commit keeps its own time
                 r = core.run_zerv(bins, argv, env=env)
             elif via == "both":
                 # commit time and tag time both known: the commit time decides ("or, failing that, tag time")
                 other = (t * 7919 + 86400 * 400) % (LAST_DAY * DAY)
                 ron = stdin_obj("Some(%d)" % t, "Some(%d)" % other, c[5] if len(c) > 5 else 0)
                 argv = ["version", "--source", "stdin", "--schema", preset, "--output-format", fmt]
+                if t % 5 in (1, 2):
+                    argv += ["--clean"]          # forgets distance and dirt, not the commit's own time (and a dirty object no longer reads the clock)
+                    env = env0
                 r = core.run_zerv(bins, argv, stdin=ron, env=env)
             else:
                 ron = stdin_obj("None", "Some(%d)" % t, c[5] if len(c) > 5 else 0)
@@ -179,7 +184,7 @@ def work_git(bins, seed, idx, tmp):
             tz = rng.choice(TZS)
             env = core.base_env(bins, home=home, tz=tz, now=head["ctime"])   # dirty states read the (pinned) wall clock
             for preset, fmt in ((rng.choice(CALVER), "semver"), (rng.choice(CALVER), "pep440")):
-                r = core.run_zerv(bins, ["version", "-C", path, "--schema", preset, "--output-format", fmt], env=env)
+                r = core.run_zerv(bins, ["version", "-C", path, "--schema", preset, "--output-format", fmt] + (["--clean"] if rng.random() < 0.3 else []), env=env)
                 n += 1
                 m = _NUM3.match(r["out"].strip()) if r["exit"] == 0 else None
                 if not m or (int(m.group(1)), int(m.group(2)), int(m.group(3))) != (f["y"], f["m"], f["d"]):
